@@ -8916,7 +8916,7 @@ S_<TN_, TA_, EmptyT<TA_>>::wrapSelect(Control& HFSM2_IF_LOG_STATE_METHOD(control
 	HFSM2_LOG_STATE_METHOD(&Empty::select,
 						   Method::SELECT);
 
-	return INVALID_PRONG;
+	return 0;
 }
 
 #if HFSM2_UTILITY_THEORY_AVAILABLE()
@@ -8938,7 +8938,7 @@ S_<TN_, TA_, EmptyT<TA_>>::wrapUtility(Control& HFSM2_IF_LOG_STATE_METHOD(contro
 	HFSM2_LOG_STATE_METHOD(&Empty::utility,
 						   Method::UTILITY);
 
-	return Utility{};
+	return Utility{1};
 }
 
 #endif
@@ -9175,7 +9175,7 @@ typename S_<TN_, TA_, EmptyT<TA_>>::UP
 S_<TN_, TA_, EmptyT<TA_>>::deepReportChange(Control& control) noexcept {
 	const Parent parent = stateParent(control);
 
-	return {Utility{}, parent.prong};
+	return {Utility{1}, parent.prong};
 }
 
 template <typename TN_, typename TA_>
@@ -9184,7 +9184,7 @@ typename S_<TN_, TA_, EmptyT<TA_>>::UP
 S_<TN_, TA_, EmptyT<TA_>>::deepReportUtilize(Control& control) noexcept {
 	const Parent parent  = stateParent(control);
 
-	return {Utility{}, parent.prong};
+	return {Utility{1}, parent.prong};
 }
 
 template <typename TN_, typename TA_>
